@@ -52,5 +52,23 @@ int main() {
       printf("C20 covrad %s %s %s %s\n", hexs(n).c_str(), res[0].c_str(), res[1].c_str(), res[2].c_str());
     }
   }
+  {
+    // the mass lookup away from the tabulated masses: far outside the table on both sides, in the gaps between neighbouring masses, with
+    // a tight and a loose tolerance; a mass farther than the tolerance from every element must be refused
+    Elements e;
+    e.getMass("H");
+    std::vector<double> ms;
+    for (auto &kv : e.Mass_) ms.push_back(kv.second);
+    std::sort(ms.begin(), ms.end());
+    std::vector<double> probes = {300.0, 1e4, ms.back() + 0.75, ms.back() + 0.005, ms.front() - 0.005, 0.9, 0.4, 0.0, -1.0, -1e3};
+    for (size_t i = 0; i + 1 < ms.size(); i++) { probes.push_back(0.5 * (ms[i] + ms[i + 1]) + 0.001); probes.push_back(ms[i] + 0.3 * (ms[i + 1] - ms[i])); }
+    const double tols[2] = {0.01, 0.6};
+    for (double m : probes) for (double tol : tols) {
+      std::string back = "?"; int assoc = -1;
+      try { back = e.getEleShortClosestInMass(m, tol); } catch (...) { back = "!"; }
+      try { assoc = e.isMassAssociatedWithElement(m, tol) ? 1 : 0; } catch (...) {}
+      printf("C20 massprobe %s %s %s %d\n", dexact(m).c_str(), dexact(tol).c_str(), hexs(back).c_str(), assoc);
+    }
+  }
   return 0;
 }
